@@ -28,7 +28,7 @@ StdRevs == << [name |-> "t0.0", tmpl |-> "t0", num |-> 1, created |-> 100, owner
 
 MkPod(o, c) == [new |-> FALSE, name |-> "foo-" \o ToString(o), ord |-> o, member |-> TRUE, match |-> TRUE, owner |-> "self",
                 phase |-> PhaseTab[c.ph][1], ready |-> PhaseTab[c.ph][2], term |-> c.term, rev |-> RevTab[c.rev],
-                identOK |-> TRUE, storOK |-> TRUE]
+                identOK |-> TRUE, storOK |-> TRUE, uidOK |-> TRUE]
 
 PodSeq == LET present == {o \in Ords : pods[o].present} IN
           SetToSortSeq({MkPod(o, pods[o]) : o \in present}, LAMBDA a, b : a.ord < b.ord)
